@@ -253,22 +253,23 @@ def ops_stream(ck, info, names):
             elif ("", o) in tbl:
                 model[(d, o)] = 1 if tbl[("", o)] else 0
             else:
-                model[(d, o)] = 2 if tbl else None
+                model[(d, o)] = 1 if tbl else None
     ans = harness("compile", [{"src": L.OP_PROGRAMS[o], "target": "sql." + d} for d, o in pairs])
     for (d, o), a in zip(pairs, ans):
         ck.count("ops", d + "|" + o)
         want = model.get((d, o))
         if "ok" in a:
             got = 0
-        elif "err" in a and any("is not supported for dialect" in (e.get("reason") or "") for e in a["err"]):
+        elif "err" in a:
             got = 1
+            ck.stat("ops", "error:" + ("not-supported" if any("is not supported for dialect" in (e.get("reason") or "") for e in a["err"]) else "earlier-error"))
         else:
             got = 2
-        ck.stat("ops", "outcome:%s" % ["emitted", "compile-error", "other-error-or-panic"][got])
+        ck.stat("ops", "outcome:%s" % ["emitted", "compile-error", "panic-or-abort"][got])
         if want is None:
             continue
         if want != got:
-            what = {0: "emitted", 1: "a compile error 'not supported'", 2: "unresolved"}[want]
+            what = {0: "emitted", 1: "a compile error (no implementation for the dialect)"}[want]
             ck.disagreement("operator %s for %s: model says %s, compiler: %s" % (o, d, what, json.dumps(a)[:200]),
                             {"kind": "ops", "target": "sql." + d, "src": L.OP_PROGRAMS[o], "op": o, "model": want, "compiler": a, "tags": [], "sql": a.get("ok", ""), "msg": ""}, L.classify)
     for o in uncovered:
@@ -295,8 +296,9 @@ def limit_stream(ck, info, names, I):
         header = ("From Coq Require Import List NArith.\nFrom PV Require Import Model.SqlAst Model.DialectFeat.\nImport ListNotations.\nLocal Open Scope N_scope.\n")
         o = lambda x: "None" if x is None else "(Some %d)" % x
         try:
-            vals = coq_eval(header, ["(let r := limit_model %s %s %s %s in (l_limit (fst r), l_offset (fst r), l_offset_rows (fst r), l_fetch (fst r), snd r))" % (
-                "true" if feats[c[0]]["use_fetch"] else "false", "true" if c[1] else "false", o(c[2]), o(c[3])) for c, _ in ok])
+            vals = coq_eval(header, ["(let r := limit_model %s %s %s %s %s in (l_limit (fst r), l_offset (fst r), l_offset_rows (fst r), l_fetch (fst r), snd r))" % (
+                "true" if feats[c[0]]["use_fetch"] else "false", "false" if feats[c[0]].get("limit_for_bare_offset") is None else "true",
+                "true" if c[1] else "false", o(c[2]), o(c[3])) for c, _ in ok])
             model = vals
         except RuntimeError as ex:
             ck.coverage["limit_model_error"] = str(ex)[-400:]
